@@ -389,6 +389,16 @@ func (f *Func) reachTarget(
 			if v.Value.IsValid() {
 				skip = true
 				argMap[graph.VertexID(out)] = v.Value
+
+				// The value was put there for this target, by the walk of
+				// the path that led here. It must not be taken for the
+				// argument of whoever needs this type next: that one makes
+				// its own choice, under its own name preference. (When
+				// planning for Redefine the values are placeholders for the
+				// inputs and stay.)
+				if !redefine {
+					v.Value = reflect.Value{}
+				}
 			}
 
 		case *valueVertex:
@@ -655,6 +665,12 @@ func (f *Func) reachTarget(
 		// We store the final value in the input map.
 		log.Trace("final value", "vertex", path[len(path)-1], "value", finalValue.Interface())
 		argMap[graph.VertexID(path[len(path)-1])] = finalValue
+
+		// Likewise, a typed argument we just resolved for this target is
+		// not the value of that type for anybody else.
+		if v, ok := path[len(path)-1].(*typedArgVertex); ok && !redefine {
+			v.Value = reflect.Value{}
+		}
 	}
 
 	// Reached our goal
